@@ -97,7 +97,10 @@ package types
 //@   requires wf_ctx(ctx)
 
 //@ func (h ITrxHandler_TrxStakeHandler) ValidateTrx(ctx)
-//@   requires wf_ctx(ctx)
+//@   requires wf_ctx(ctx) && u(ctx.Tx.Amount) <= u(ctx.Sender.Balance)
+//@   modifies allmaps(memItems.gotItems), itemkey, itemenc, StakeLimiter.*, powerObj.*, allelems(StakeLimiter.powerObjs)
+//@   allocates Delegatee, Stake, BlockMarker, Reward, uint256.Int, powerObj
+//@   ensures result == nil ==> stake_ready(h, ctx)                                                          [C13]
 
 //@ func (h ITrxHandler_TrxEVMHandler) ValidateTrx(ctx)
 //@   requires wf_ctx(ctx) && ctx.Tx.Type == 6
@@ -117,7 +120,15 @@ package types
 //@   sameas (ITrxHandler_TrxAcctHandler).ExecuteTrx
 
 //@ func (h ITrxHandler_TrxStakeHandler) ExecuteTrx(ctx)
-//@   sameas (ITrxHandler_TrxAcctHandler).ExecuteTrx
+//@   requires wf_ctx(ctx)
+//@   requires ctx.Exec ==> sig_ok(ctx.Tx, ctx.ChainID)                                                      [C03]
+//@   requires ctx.Sender.Nonce == ctx.Tx.Nonce                                                              [C04]
+//@   requires u(ctx.Tx.Amount) <= u(ctx.Sender.Balance) && stake_ready(h, ctx)                              [C13]
+//@   modifies everything
+//@   preserves feeSumObj, u(feeSumObj), govPriceObj, u(govPriceObj), RigoApp.*, BlockContext.*, Config.*, GovParams.gasPrice, Account.Nonce, Account.Balance, Account.Code, Trx.*, TrxContext.*, govGasPrice, govMinTrxGas
+//@   ensures wf_ctx(ctx) && tx_same(ctx.Tx)
+//@   ensures result != nil ==> u(ctx.Sender.Balance) == old(u(ctx.Sender.Balance))                         [C05]
+//@   ensures result == nil ==> u(ctx.Sender.Balance) >= old(u(ctx.Sender.Balance)) - u(ctx.Tx.Amount)      [C16]
 
 //@ func (h ITrxHandler_TrxEVMHandler) ExecuteTrx(ctx)
 //@   requires wf_ctx(ctx)
@@ -286,7 +297,7 @@ package types
 //@   modifies mem(uint256.Int), allmaps(memItems.gotItems), itemkey, itemenc
 //@   allocates Account, uint256.Int
 //@   ensures items_same()
-//@   ensures forall x :: old(allocated(x)) && x != acct_at(h, content(to), exec).Balance ==> u(x) == old(u(x))       [C02,C13]
+//@   ensures forall x :: old(allocated(x)) && (!isbal(x) || x != acct_at(h, content(to), exec).Balance) ==> u(x) == old(u(x))       [C02,C13]
 //@   ensures result == nil ==> acct_at(h, content(to), exec) != nil && acct_at(h, content(to), exec).Balance != nil && isbal(acct_at(h, content(to), exec).Balance)
-//@   ensures result == nil && !fresh(acct_at(h, content(to), exec).Balance) && old(u(acct_at(h, content(to), exec).Balance)) + old(u(amt)) < 2^256 ==> u(acct_at(h, content(to), exec).Balance) == old(u(acct_at(h, content(to), exec).Balance)) + old(u(amt))   [C12,C13]
-//@   ensures result != nil && !fresh(acct_at(h, content(to), exec).Balance) ==> u(acct_at(h, content(to), exec).Balance) == old(u(acct_at(h, content(to), exec).Balance))   [C05]
+//@   ensures forall x :: old(allocated(x)) && result == nil && x == acct_at(h, content(to), exec).Balance && old(u(x)) + old(u(amt)) < 2^256 ==> u(x) == old(u(x)) + old(u(amt))   [C12,C13]
+//@   ensures forall x :: old(allocated(x)) && result != nil ==> u(x) == old(u(x))                              [C05]
